@@ -665,7 +665,16 @@ func shrink(w WL) []WL {
 func TestSim(t *testing.T) {
 	simh.Main(t, simh.Harness[WL]{Property: "C13", Gen: gen, Exec: exec, Shrink: shrink,
 		Tune: func(w WL, cfg *simrt.Config) {
-			cfg.MaxSteps, cfg.FairSteps = 20000, 20000
+			cfg.MaxSteps, cfg.FairSteps = 200000, 200000
+			// roaring itself is instrumented with function-entry scheduling points (so that two callers
+			// that a broken wrapper lets into the same bitmap really interleave inside it); only a seeded
+			// fraction of those sites is active per run
+			if cfg.SiteSample == 0 {
+				cfg.SiteSample = []float64{0.002, 0.01, 0.03, 0.1}[cfg.Seed%4]
+			}
+			if len(w.Clients) == 1 {
+				cfg.SiteSample = 1e-9 // a single caller cannot be interleaved with anybody
+			}
 			for _, p := range w.Provs {
 				if len(p.Run) == 3 {
 					// element-wise fallbacks through a wrapper take one scheduling step per element
